@@ -596,6 +596,74 @@ func racing(r *ev.Run) {
 	r.Nontrivial("racing")
 }
 
+// reusedConnection: a connection that waited earlier (and was released) goes on to send ordinary requests, as a helper
+// does that reacts to what it waited for. Those requests are requests received by the agent like any other: a client
+// waiting for their code on another connection is released.
+func reusedConnection(r *ev.Run) {
+	for vi, v := range []struct{ first, second byte }{{13, 11}, {11, 11}, {35, 11}, {17, 19}} {
+		c := r.Case("reused-connection", vi)
+		if c == nil || wedgedOnce || r.NumViolations() > 8 {
+			continue
+		}
+		r.Eval(1)
+		r.Guard(c, "connection that waited earlier sends a request", v, func() {
+			g, err := newRig(false)
+			if err != nil {
+				r.Count("reused-connection: rig could not be built", 1)
+				return
+			}
+			defer g.close()
+			a, err := g.startWaiter(v.first)
+			if err != nil {
+				return
+			}
+			defer a.conn.Close()
+			if n := waitParked(1, ev.OpTimeout()); n != 1 {
+				r.Violation(c, "waiter-does-not-register:reused-connection", fmt.Sprintf("code %d: %d parked", v.first, n), v)
+				return
+			}
+			g.poke(v.first)
+			select {
+			case <-a.done:
+			case <-time.After(ev.OpTimeout()):
+				r.Violation(c, "waiter-not-released:reused-connection", fmt.Sprintf("code %d", v.first), v)
+				wedgedOnce = true
+				return
+			}
+			b, err := g.startWaiter(v.second)
+			if err != nil {
+				return
+			}
+			defer b.conn.Close()
+			if n := waitParked(1, ev.OpTimeout()); n != 1 {
+				r.Violation(c, "waiter-does-not-register:reused-connection", fmt.Sprintf("code %d: %d parked", v.second, n), v)
+				return
+			}
+			// the first connection now sends a request with the code the second one waits for
+			ac := a.conn.(net.Conn)
+			body := []byte{v.second}
+			ac.Write(wire.Frame(body))
+			ac.SetReadDeadline(time.Now().Add(ev.OpTimeout()))
+			if _, rerr := wire.ReadFrame(ac); rerr != nil {
+				r.Count("reused-connection: the request on the first connection got no reply (not judged)", 1)
+			}
+			select {
+			case e := <-b.done:
+				if e != nil {
+					r.Violation(c, "released-waiter-reports-error:reused-connection", e.Error(), v)
+					return
+				}
+			case <-time.After(ev.OpTimeout()):
+				r.Violation(c, "waiter-not-released:request-from-a-connection-that-waited-earlier", fmt.Sprintf("a client waits for code %d; a request with that code arrived on a connection that had itself waited (for code %d) before: the waiter is still parked", v.second, v.first), v)
+				wedgedOnce = true
+				return
+			}
+			r.Count("waiters released by a request from a connection that had waited earlier", 1)
+			r.Nontrivial(fmt.Sprintf("reused-connection:%d:%d", v.first, v.second))
+		})
+	}
+}
+
 // worn: an agent that has already received a great many requests with the awaited code (an agent lives for days and
 // every ssh connection attempt sends a listing request). The number of earlier requests crosses the 8- and 16-bit
 // boundaries while waiters come and go: each waiter must ignore a non-matching request and be released by the next
@@ -797,6 +865,7 @@ func main() {
 		}
 		racing(r)
 		worn(r)
+		reusedConnection(r)
 		cs := []string{}
 		_ = sort.Strings
 		_ = cs
